@@ -149,9 +149,24 @@ def edge_seed_specs(ctx):
     return specs
 
 
+def stobads_specs(ctx):
+    """Noisy runs with options['stobads'] (a different incumbent-update policy, where a poll may 'move' the incumbent onto itself): the
+    recorded (x, yval) pairs must still be pairs that were observed.  Checked against the property's predicates only."""
+    from .. import gen
+    rng = ctx.sub_rng("c19sto")
+    specs = []
+    for _ in range(24 if ctx.quick else 120):
+        mode = rng.choice(["decl", "decl", "he", "auto"])
+        sp = gen.make_spec(rng, D=rng.choice([1, 1, 2]), mode=mode, geom=rng.choice(["box", "tight"]), cons=None, target=rng.choice(["quad", "abs"]))
+        sp["options"] = {"n_search": 32, "max_fun_evals": rng.randint(45, 130), "stobads": True, "noise_final_samples": rng.choice([0, 2])}
+        specs.append(sp)
+    return specs
+
+
 def run(ctx):
     rep = Report()
     cstats = container_level(ctx, rep)
+    runlevel.with_extra(ctx, "c19sto", lambda: stobads_specs(ctx))
     runlevel.with_extra(ctx, "c19seed", lambda: edge_seed_specs(ctx))
     stats, samples = runlevel.noisy_replay(ctx, rep, ctx.pid)
     fstats = runlevel.full_replay(ctx, rep)
